@@ -65,6 +65,11 @@ def gen(rng, tier):
     n = 1500 if tier == "thorough" else 120
     for _ in range(n):
         cases.append({"frames": _pool(rng), "ops": _history(rng, rng.randint(2, 12)), "kind": "random"})
+    # a share of short histories is additionally compared with a brand-new interpreter per operation
+    for i in range(60 if tier == "thorough" else 12):
+        ops = [["build", rng.choice([7, 8, 1, 4, 6]), 0], ["build", rng.choice([7, 8, 1, 4, 6]), 3],
+               [rng.choice(["common", "group"]), 1, rng.randrange(4)]]
+        cases.append({"frames": _pool(rng), "ops": ops, "kind": "fresh-process", "fresh_process": True})
     if tier == "thorough":
         frames = _pool(rng)
         alphabet = [["build", 1, 0], ["build", 5, 0], ["common", 0, 1], ["common", 0, 2], ["group", 0, 2],
@@ -202,6 +207,24 @@ def compare(c, mo, obs):
     return None
 
 
+def _execute_in_new_process(single):
+    """runs a (short) history in a brand-new interpreter: no state of this worker can leak into it"""
+    import json
+    import os
+    import subprocess
+    import sys
+    code = ("import sys, json; sys.path[:0] = %r; from props import C07; "
+            "c = json.loads(sys.stdin.read()); o, p = C07._execute(c); print('@@' + json.dumps(o))"
+            % ([p for p in sys.path if p and ("harness" in p or p == os.environ.get("VERIF_REPO", "/repo") or "repo" in p or "evalwt" in p or "seed" in p)],))
+    env = dict(os.environ)
+    r = subprocess.run([sys.executable, "-c", code], input=json.dumps(single), capture_output=True, text=True,
+                       timeout=120, env=env)
+    for line in r.stdout.splitlines():
+        if line.startswith("@@"):
+            return json.loads(line[2:])
+    raise RuntimeError("fresh process failed: " + r.stderr[-300:])
+
+
 def oracle(c):
     """each operation re-executed on freshly built objects must return what it returned in the history"""
     outs, problems = _execute(c)
@@ -225,6 +248,12 @@ def oracle(c):
         if fresh[-1] != outs[k]:
             return (f"operation {k} {o} returned something else inside the history {c['ops'][:k + 1]} than when "
                     f"executed on freshly built objects")
+        if c.get("fresh_process"):
+            import json
+            fresh2 = _execute_in_new_process(single)
+            if json.loads(json.dumps(outs[k])) != fresh2[-1]:
+                return (f"operation {k} {o} returned something else in this process (after the history "
+                        f"{c['ops'][:k + 1]} and whatever ran before) than in a fresh interpreter")
     # determinism
     again, _ = _execute(c)
     if again != outs:
